@@ -10,6 +10,14 @@
 (*      `punspents`; re-serialising that gave `reser`.                         *)
 (*   kind "bytes": only `input` (a real transaction from a test vector): the   *)
 (*      spec must parse it and re-serialise it byte for byte (fidelity).       *)
+(*   kind "ltc": Litecoin dialect.  pycoin cannot write Litecoin's MWEB-flagged *)
+(*      form, so the recorder derives `input` from pycoin's standard bytes      *)
+(*      (sets flag bit 3, inserts the MWEB byte 0); TLC first checks that this  *)
+(*      input IS WireLTC(tx, TRUE), then that parsing it gave `parsed` = tx     *)
+(*      and that re-serialising gave the standard form of those fields.         *)
+(*   kind "ltcreal": a transaction of a real Litecoin block as pycoin's block    *)
+(*      parser delimited and parsed it: the spec's Litecoin parser must read    *)
+(*      the same fields from the same bytes and write the bytes back.           *)
 (* Accepted traces are printed with the id terms for the harness to finish    *)
 (* with hashlib; rejected ones with the conjuncts that failed.                *)
 EXTENDS TxParse, Json, IOUtils
@@ -20,7 +28,7 @@ tvars == <<tid, pvars>>
 T == Traces[tid]
 
 TInit == /\ tid \in 1..Len(Traces)
-         /\ PInit(Traces[tid].input, Traces[tid].allow)
+         /\ PInitD(Traces[tid].input, Traces[tid].allow, Traces[tid].kind \in {"ltc", "ltcreal"})
 
 \* a logged unspent matches a parsed one; an entry with amount zero is not bound by the property
 UnspentOk(logged, p) == IF logged.none THEN IsZero(p.amount)
@@ -44,6 +52,18 @@ Verdict(end, px, flags, left) ==
                   /\ \A i \in 1..Len(T.punspents) : UnspentOk(T.punspents[i], flags.unspents[i])
                   /\ T.hasus => flags.unspents = T.us,
      reser    |-> (T.hasus /\ ~AllBound(T.us)) \/ T.reser = T.input]
+  ELSE IF T.kind = "ltc" THEN
+    [typed    |-> IsTx(T.tx),
+     input    |-> T.input = WireLTC(T.tx, TRUE),
+     end      |-> end = "done" /\ left = <<>> /\ flags.hogex /\ flags.canon /\ ~flags.superfluous /\ flags.ext = "none",
+     parsed   |-> px = T.parsed /\ px = T.tx,
+     unspents |-> Len(T.punspents) = 0,
+     reser    |-> T.reser = Wire(T.tx)]
+  ELSE IF T.kind = "ltcreal" THEN
+    [end      |-> end = "done" /\ left = <<>> /\ flags.canon /\ ~flags.superfluous /\ flags.ext = "none",
+     parsed   |-> px = T.parsed,
+     reser    |-> WireLTC(px, flags.hogex) = T.input,
+     typed    |-> IsTx(px)]
   ELSE
     [end      |-> end = "done" /\ left = <<>> /\ flags.canon /\ ~flags.superfluous /\ flags.ext = "none",
      reser    |-> Wire(px) = T.input,
@@ -55,7 +75,7 @@ TNext == /\ PNext /\ UNCHANGED tid
          /\ pc' \in Terminal =>
               LET v == Verdict(pc', ptx', pf', rest') IN
               IF AllTrue(v)
-              THEN PrintT(ToJson([k |-> "ids", tid |-> tid] @@ ShowIds(IF T.kind = "codec" THEN T.tx ELSE ptx')))
+              THEN PrintT(ToJson([k |-> "ids", tid |-> tid] @@ ShowIds(IF T.kind \in {"codec", "ltc"} THEN T.tx ELSE ptx')))
               ELSE PrintT(ToJson([k |-> "rej", tid |-> tid, end |-> pc', failed |-> {f \in DOMAIN v : ~v[f]}]))
 TSpec == TInit /\ [][TNext]_tvars
 
